@@ -13,6 +13,59 @@ def targs(canon):
     return _split_top(canon[i + 1:-1])
 
 
+BSTR_MODEL = """
+/* bounded std::string code model: {char b[%(CAP)d]; n; cap} -- characters inline, no heap */
+static inline void %(s)s_init(%(s)s *v) { v->n = 0; v->cap = %(CAP)d; }
+static inline void %(s)s_dtor(%(s)s *v) { (void)v; }
+static inline void %(s)s_clear(%(s)s *v) { v->n = 0; }
+static inline unsigned long %(s)s_size(%(s)s *v) { return v->n; }
+static void %(s)s_from_buf(%(s)s *v, const char *p, unsigned long n) { unsigned long i; __CPROVER_assert(n <= %(CAP)d, "BOUND string longer than the bounded model's capacity"); v->n = n; v->cap = %(CAP)d; for (i = 0; i < n; i++) v->b[i] = p[i]; }
+static void %(s)s_from_cstr(%(s)s *v, const char *p) { unsigned long n = 0; while (p[n] != 0) n++; %(s)s_from_buf(v, p, n); }
+static void %(s)s_copy(%(s)s *v, %(s)s *o) { *v = *o; }
+static void %(s)s_assign_copy(%(s)s *v, %(s)s *o) { *v = *o; }
+static void %(s)s_assign_cstr(%(s)s *v, const char *p) { %(s)s t; %(s)s_from_cstr(&t, p); *v = t; }
+static inline void %(s)s_push_back(%(s)s *v, char *x) { __CPROVER_assert(v->n < %(CAP)d, "BOUND string longer than the bounded model's capacity"); v->b[v->n] = *x; v->n++; }
+static inline char *%(s)s_at(%(s)s *v, unsigned long i) { if (i >= v->n) { __verif_exc = %(OOR)s; return v->b; } return v->b + i; }
+static inline void %(s)s_resize(%(s)s *v, unsigned long n) { unsigned long i; __CPROVER_assert(n <= %(CAP)d, "BOUND string longer than the bounded model's capacity"); for (i = v->n; i < n; i++) v->b[i] = 0; v->n = n; }
+static unsigned long %(s)s_find_last_of_c(%(s)s *v, char c) { unsigned long i = v->n; while (i > 0) { --i; if (v->b[i] == c) return i; } return (unsigned long)-1; }
+static unsigned long %(s)s_find_c(%(s)s *v, char c, unsigned long pos) { unsigned long i; for (i = pos; i < v->n; i++) if (v->b[i] == c) return i; return (unsigned long)-1; }
+static unsigned long %(s)s_find_buf(%(s)s *v, const char *p, unsigned long m, unsigned long pos)
+{
+  unsigned long i, j;
+  if (m == 0) return pos <= v->n ? pos : (unsigned long)-1;
+  for (i = pos; i + m <= v->n; i++) { _Bool ok = 1; for (j = 0; j < m; j++) if (v->b[i + j] != p[j]) ok = 0; if (ok) return i; }
+  return (unsigned long)-1;
+}
+static unsigned long %(s)s_find_cstr(%(s)s *v, const char *p, unsigned long pos) { unsigned long m = 0; while (p[m] != 0) m++; return %(s)s_find_buf(v, p, m, pos); }
+static _Bool %(s)s_has(%(s)s *set, char c) { unsigned long j; for (j = 0; j < set->n; j++) if (set->b[j] == c) return 1; return 0; }
+static unsigned long %(s)s_find_first_of(%(s)s *v, %(s)s *set, unsigned long pos) { unsigned long i; for (i = pos; i < v->n; i++) if (%(s)s_has(set, v->b[i])) return i; return (unsigned long)-1; }
+static unsigned long %(s)s_find_first_not_of(%(s)s *v, %(s)s *set, unsigned long pos) { unsigned long i; for (i = pos; i < v->n; i++) if (!%(s)s_has(set, v->b[i])) return i; return (unsigned long)-1; }
+static %(s)s %(s)s_substr(%(s)s *v, unsigned long pos, unsigned long len)
+{
+  %(s)s r; r.n = 0; r.cap = %(CAP)d;
+  if (pos > v->n) { __verif_exc = %(OOR)s; return r; }
+  unsigned long m = v->n - pos; if (len < m) m = len;
+  %(s)s_from_buf(&r, v->b + pos, m);
+  return r;
+}
+static %(s)s %(s)s_concat_buf(%(s)s *a, const char *p, unsigned long n)
+{
+  %(s)s r; unsigned long i;
+  __CPROVER_assert(a->n + n <= %(CAP)d, "BOUND string longer than the bounded model's capacity");
+  r = *a; r.cap = %(CAP)d;
+  for (i = 0; i < n; i++) r.b[a->n + i] = p[i];
+  r.n = a->n + n;
+  return r;
+}
+static %(s)s %(s)s_concat(%(s)s *a, %(s)s *b) { return %(s)s_concat_buf(a, b->b, b->n); }
+static %(s)s %(s)s_concat_c(%(s)s *a, char c) { return %(s)s_concat_buf(a, &c, 1); }
+static %(s)s %(s)s_concat_cstr(%(s)s *a, const char *p) { unsigned long n = 0; while (p[n] != 0) n++; return %(s)s_concat_buf(a, p, n); }
+static _Bool %(s)s_eq(%(s)s *a, %(s)s *b) { unsigned long i; if (a->n != b->n) return 0; for (i = 0; i < a->n; i++) if (a->b[i] != b->b[i]) return 0; return 1; }
+static _Bool %(s)s_eq_cstr(%(s)s *a, const char *p) { unsigned long i; for (i = 0; i < a->n; i++) if (p[i] == 0 || a->b[i] != p[i]) return 0; return p[a->n] == 0; }
+"""
+
+
+
 class StdLib:
     def __init__(self, tr):
         self.tr = tr
@@ -59,6 +112,10 @@ class StdLib:
         if canon.startswith("std::shared_ptr<") or canon.startswith("std::__shared_ptr<"):
             t = parse_type(targs(canon)[0])
             return [("p", Ty("ptr", to=t)), ("c", Ty("ptr", to=Ty("rec", name="verif_ctrl")))]
+        if canon.startswith("std::vector<") and self.tr.opts.get("bounded_vec"):
+            return [("b", Ty("arr", to=parse_type(targs(canon)[0]), n=int(self.tr.opts["bounded_vec"]))), ("n", parse_type("unsigned long")), ("cap", parse_type("unsigned long"))]
+        if self.is_string(canon) and self.tr.opts.get("bounded_str"):
+            return [("b", Ty("arr", to=parse_type("char"), n=int(self.tr.opts["bounded_str"]))), ("n", parse_type("unsigned long")), ("cap", parse_type("unsigned long"))]
         if canon.startswith("std::vector<") or self.is_string(canon):
             t = parse_type(targs(canon)[0])
             return [("b", Ty("ptr", to=t)), ("n", parse_type("unsigned long")), ("cap", parse_type("unsigned long"))]
@@ -150,8 +207,53 @@ static inline void %(s)s_assign_move(%(s)s *s, %(s)s *o) { %(s)s t; %(s)s_move(&
             return out
         raise ExtractionBreak("tracked std::vector: element type %s" % t.key())
 
+    def ensure_bstr(self, canon):
+        """bounded std::string CODE model: the characters live inline in the struct (no heap, no pointers), capacity
+        opts['bounded_str']; every operation is C code with loops (run with --unwind: results are BOUNDED by the capacity)."""
+        tr = self.tr
+        s = tr.need_record(canon)
+        if s in self.text:
+            return s
+        OOR = tr.exc_tag("std::out_of_range")
+        self.text[s] = BSTR_MODEL % dict(s=s, CAP=int(tr.opts["bounded_str"]), OOR=OOR)
+        tr.opts.setdefault("stub_may_throw", [])
+        tr.opts["stub_may_throw"] = list(tr.opts["stub_may_throw"]) + [n for n in (s + "_substr", s + "_at", s + "_resize") if n not in tr.opts["stub_may_throw"]]
+        tr.assume("std::string (bounded code model)", "a string is {char b[%d]; n}: characters inline in the struct, no heap; construction from C strings / copies / substr / operator+ / find_last_of / comparisons / resize are C code with loops (run with --unwind, so results are BOUNDED by that capacity); an operation producing a longer string fails the assertion 'BOUND ...' (lib/stdlib.py)" % int(tr.opts["bounded_str"]))
+        return s
+
+    def ensure_bvec(self, canon):
+        """bounded std::vector CODE model: elements inline in the struct (capacity opts['bounded_vec']); elements are copied
+        by value (sound for the trivially copyable C representations used here, incl. the bounded string model)"""
+        tr = self.tr
+        s = tr.need_record(canon)
+        if s in self.text:
+            return s
+        t = parse_type(targs(canon)[0])
+        T = tr.ctype(t)
+        if t.kind == "rec":
+            tr.need_record(t.name)
+            if self.is_string(t.name):
+                self.ensure_vec(t.name)
+        OOR = tr.exc_tag("std::out_of_range")
+        CAP = int(tr.opts["bounded_vec"])
+        self.text[s] = """
+/* bounded std::vector code model: {%(T)s b[%(CAP)d]; n; cap} */
+static inline void %(s)s_init(%(s)s *v) { v->n = 0; v->cap = %(CAP)d; }
+static inline void %(s)s_dtor(%(s)s *v) { (void)v; }
+static inline void %(s)s_clear(%(s)s *v) { v->n = 0; }
+static inline void %(s)s_push_back(%(s)s *v, %(T)s *x) { __CPROVER_assert(v->n < %(CAP)d, "BOUND vector longer than the bounded model's capacity"); v->b[v->n] = *x; v->n++; }
+static inline %(T)s *%(s)s_at(%(s)s *v, unsigned long i) { if (i >= v->n) { __verif_exc = %(OOR)s; return v->b; } return v->b + i; }
+static inline void %(s)s_resize(%(s)s *v, unsigned long n) { __CPROVER_assert(n <= v->n, "BOUND growing resize is not modelled for the bounded vector"); v->n = n; }
+""" % dict(s=s, T=T, CAP=CAP, OOR=OOR)
+        tr.opts.setdefault("stub_may_throw", [])
+        tr.opts["stub_may_throw"] = list(tr.opts["stub_may_throw"]) + [n for n in (s + "_at", s + "_resize") if n not in tr.opts["stub_may_throw"]]
+        tr.assume("std::vector (bounded code model)", "elements inline in the struct, capacity %d, copied by value; push_back beyond the capacity fails the assertion 'BOUND ...' (lib/stdlib.py)" % CAP)
+        return s
+
     def is_tracked(self, canon):
         o = self.tr.opts
+        if (canon.startswith("std::vector<") and o.get("bounded_vec")) or (self.is_string(canon) and o.get("bounded_str")):
+            return True
         return bool(o.get("tracked_vec")) and (canon.startswith("std::vector<") or (bool(o.get("tracked_str")) and self.is_string(canon)))
 
     def ensure_tvec(self, canon):
@@ -214,6 +316,10 @@ static inline void %(s)s_resize(%(s)s *v, unsigned long n) { if (n <= v->n) { v-
 
     def ensure_vec(self, canon):
         tr = self.tr
+        if self.is_string(canon) and tr.opts.get("bounded_str"):
+            return self.ensure_bstr(canon)
+        if canon.startswith("std::vector<") and tr.opts.get("bounded_vec"):
+            return self.ensure_bvec(canon)
         if self.is_tracked(canon):
             return self.ensure_tvec(canon)
         s = tr.need_record(canon)
@@ -296,6 +402,12 @@ static inline void %(s)s_dtor(%(s)s *v) { if (v->b) free(v->b); v->b = 0; v->n =
             if not nonalloc:
                 return init
             pt = parse_type(ps[0])
+            bstr = self.is_string(canon) and bool(tr.opts.get("bounded_str"))
+            if bstr and len(nonalloc) == 1 and pt.kind == "ptr":
+                tr.cur.calls[s + "_from_cstr"] = True
+                return [X("expr", X("call", s + "_from_cstr", [ptr, tr.rv(nonalloc[0])]))]
+            if bstr and len(nonalloc) == 1 and pt.kind == "ref" and pt.to.kind == "rec" and pt.to.name == canon and not pt.rv:
+                return [X("expr", X("call", s + "_copy", [ptr, tr.bind_ref(nonalloc[0])]))]
             if len(nonalloc) == 1 and pt.kind == "ref" and pt.to.kind == "rec" and pt.to.name == canon:
                 if pt.rv:
                     return [X("expr", X("assign", "=", deref(ptr), tr.lv(nonalloc[0]))), X("expr", X("call", s + "_init", [tr.bind_ref(nonalloc[0])]))]
@@ -557,6 +669,32 @@ static inline void verif_lock_guard_dtor(std_lock_guard_std_mutex *g) { g->m->g_
             if m == "operator[]":
                 return X("index", X("mem", o, "b"), tr.rv(args[0]), ty=T)
             tracked = self.is_tracked(canon)
+            bstr = self.is_string(canon) and bool(tr.opts.get("bounded_str"))
+            if bstr:
+                UL = parse_type("unsigned long")
+                real = [a for a in args if a.get("kind") != "CXXDefaultArgExpr"]
+                if m == "find_last_of" and len(real) == 1 and tr.ety(real[0]).noref().kind == "builtin":
+                    return X("call", s + "_find_last_of_c", [addr(o), tr.rv(real[0])], ty=UL)
+                if m == "find" and len(real) >= 1:
+                    t0 = tr.ety(real[0]).noref()
+                    pos = tr.rv(real[1]) if len(real) > 1 else X("lit", "0ul")
+                    if t0.kind == "builtin":
+                        return X("call", s + "_find_c", [addr(o), tr.rv(real[0]), pos], ty=UL)
+                    if t0.kind in ("ptr", "arr"):
+                        return X("call", s + "_find_cstr", [addr(o), tr.rv(real[0]), pos], ty=UL)
+                if m in ("find_first_of", "find_first_not_of") and len(real) >= 1 and tr.ety(real[0]).noref().kind == "rec":
+                    pos = tr.rv(real[1]) if len(real) > 1 else X("lit", "0ul")
+                    return X("call", s + "_" + m, [addr(o), tr.bind_ref(real[0]), pos], ty=UL)
+                if m == "substr":
+                    a0 = tr.rv(real[0]) if len(real) > 0 else X("lit", "0ul")
+                    a1 = tr.rv(real[1]) if len(real) > 1 else X("lit", "((unsigned long)-1)")
+                    return X("callx", X("call", s + "_substr", [addr(o), a0, a1], ty=oty), s + "_substr", tr.jump_text(), None, ty=oty)
+                if m == "operator=":
+                    pt = parse_type(ps[0])
+                    if pt.kind == "ptr":
+                        return deref(X("comma", X("call", s + "_assign_cstr", [addr(o), tr.rv(args[0])]), addr(o), ty=Ty("ptr", to=oty)))
+                    if pt.kind == "ref" and not pt.rv:
+                        return deref(X("comma", X("call", s + "_assign_copy", [addr(o), tr.bind_ref(args[0])]), addr(o), ty=Ty("ptr", to=oty)))
             if m == "back":
                 return X("index", X("mem", o, "b"), X("bin", "-", X("mem", o, "n"), X("lit", "1ul")), ty=T)
             if m == "front":
@@ -699,6 +837,23 @@ static inline void verif_lock_guard_dtor(std_lock_guard_std_mutex *g) { g->m->g_
             raise ExtractionBreak("iterator operation '%s' has no model" % q)
         # ---- memory / C strings
         base = q[5:] if q.startswith("std::") else q
+        if tr.opts.get("bounded_str") and base in ("operator+", "operator==", "operator!=") and len(args) == 2:
+            t0, t1 = tr.ety(args[0]).noref(), tr.ety(args[1]).noref()
+            if t0.kind == "rec" and self.is_string(t0.name):
+                s = self.ensure_vec(t0.name)
+                a0 = tr.bind_ref(args[0])
+                B = parse_type("bool")
+                if base == "operator+":
+                    if t1.kind == "rec" and self.is_string(t1.name):
+                        return X("call", s + "_concat", [a0, tr.bind_ref(args[1])], ty=t0)
+                    if t1.kind == "builtin":
+                        return X("call", s + "_concat_c", [a0, tr.rv(args[1])], ty=t0)
+                    return X("call", s + "_concat_cstr", [a0, tr.rv(args[1])], ty=t0)
+                if t1.kind == "rec" and self.is_string(t1.name):
+                    r = X("call", s + "_eq", [a0, tr.bind_ref(args[1])], ty=B)
+                else:
+                    r = X("call", s + "_eq_cstr", [a0, tr.rv(args[1])], ty=B)
+                return r if base == "operator==" else X("un", "!", r, ty=B)
         if base in ("find_if", "stable_partition", "partition") and len(args) == 3:
             return self.algorithm(base, args, ps)
         if base in ("mismatch", "equal") and len(args) == 3:
